@@ -141,7 +141,16 @@ def gen_unary(rng):
 
 
 def gen_desc(rng, fc):
-    if fc.family == "reduce":
+    if fc.family == "reduce" and rng.random() < 0.15:
+        # nothing bracketed and nothing disappears: the elementary operation is applied to every 0-d sub-tensor
+        # (axis=()), so the function is still called with the whole tensor, its options and an empty axis tuple
+        c = rng.choice([
+            {"desc": "a b", "shapes": [(2, 3)], "kwargs": {}, "note": ["no-brackets"]},
+            {"desc": "a b -> a b", "shapes": [(3, 2)], "kwargs": {}, "note": ["no-brackets"]},
+            {"desc": "a b -> b a", "shapes": [(2, 3)], "kwargs": {}, "note": ["no-brackets"]},
+            {"desc": "(a b) -> a b", "shapes": [(6,)], "kwargs": {"a": 2}, "note": ["no-brackets"]},
+        ])
+    elif fc.family == "reduce":
         c = gen.gen_reduce(rng)
     elif fc.nin == 2:
         c = gen.gen_elementwise(rng)
